@@ -235,25 +235,26 @@ let run_mode () = run_driver (fun toks impl ->
     (match List.assoc_opt name api_table with
      | None -> ("skip unmodelled-type", "na")
      | Some s ->
+       (* model side: api_model_accepts (Coq) = the bytes are a complete encoding of a value in the domain of the
+          round-trip theorem that re-encodes to exactly these bytes; verdict: api_holds (Coq) on the observations *)
+       let model_of b = (match api_model_accepts s b with
+         | Some re -> let h = hex_of_bytes re in "ok " ^ h ^ " " ^ h
+         | None -> (match dec s b with
+             | Ok (_, []) -> "model-outside-domain" | Ok (_, _) -> "model-trailing" | Err -> "model-err"
+             | Panic -> "model-panic" | OutOfFuel -> "model-outoffuel")) in
        (match impl with
         | "ok" :: hb :: hre :: flags ->
           let b = bytes_of_hex hb in
-          let model = (match dec s b with
-            | Ok (v, []) -> if wfv s v then (let re = hex_of_bytes (enc s v) in "ok " ^ re ^ " " ^ re) else "model-outside-domain"
-            | Ok (_, _) -> "model-trailing"
-            | Err -> "model-err" | Panic -> "model-panic" | OutOfFuel -> "model-outoffuel") in
+          let model = model_of b in
           (* known finding C01-plutus-script-language: a stand-alone Plutus script loses its language *)
-          let lang = hre = hb && flags = ["selfcheck:eq-language"] && (name = "PlutusScript" || name = "PlutusScripts") in
-          let verdict = if hre = hb && flags = [] then "holds"
-            else if lang then "fails:C01-plutus-script-language"
+          let lang = flags = ["selfcheck:eq-language"] && (name = "PlutusScript" || name = "PlutusScripts") in
+          let verdict = if api_holds b true (bytes_of_hex hre) (flags = []) then "holds"
+            else if lang && api_holds b true (bytes_of_hex hre) true then "fails:C01-plutus-script-language"
             else "fails:-" in
           ((if lang then model ^ " selfcheck:eq-language" else model), verdict)
         | ["deerr"; hb] ->
           let b = bytes_of_hex hb in
-          let model = (match dec s b with
-            | Ok (v, []) -> let re = hex_of_bytes (enc s v) in "ok " ^ re ^ " " ^ re
-            | _ -> "model-err") in
-          (model, "fails:-")
+          (model_of b, if api_holds b false [] true then "holds" else "fails:-")
         | ["panic"] -> ("model-nobytes", "fails:-")
         | _ -> ("driver-badimpl", "na")))
   | ["bad_schema"; name] -> ("bad_schema", "fails:model-schema-" ^ name)
